@@ -133,4 +133,80 @@ theorem takeRun_ex (f : Char → Bool) (cs : List Char) (p : Pos) :
       · simp [takeRun, h, h4]
     · exact ⟨[], c :: cs, rfl, by simp, by simp [stopsAt, h], by simp [takeRun, h]⟩
 
+theorem skipAtmosphere_atmos (b : Bool) (a rest : List Char) (p : Pos)
+    (h : isAtmos b a = true) (hr : startsTok rest = true) :
+    skipAtmosphere b (a ++ rest) p = (rest, advs a p) := by
+  induction a generalizing b p with
+  | nil =>
+    cases b
+    · cases rest with
+      | nil => simp [skipAtmosphere]
+      | cons c r =>
+        simp [startsTok] at hr
+        simp [skipAtmosphere, hr]
+    · simp [isAtmos] at h
+  | cons c a ih =>
+    cases b
+    · simp only [isAtmos] at h
+      simp only [List.cons_append, skipAtmosphere, advs_cons]
+      split
+      · rename_i hw; simp only [hw, if_true] at h; exact ih _ _ h
+      · rename_i hw
+        simp only [hw] at h
+        split
+        · rename_i hc; simp only [hc, if_true] at h; exact ih _ _ h
+        · rename_i hc; simp [hc] at h
+    · simp only [isAtmos] at h
+      simp only [List.cons_append, advs_cons]
+      rw [skipAtmosphere]
+      split
+      · rename_i hn
+        simp only [hn, if_true] at h
+        have hw : isWs c = true := by
+          simp only [Bool.or_eq_true, decide_eq_true_eq] at hn
+          rcases hn with rfl | rfl <;> decide
+        rw [skipAtmosphere]; simp only [hw, if_true]
+        exact ih _ _ h
+      · rename_i hn
+        simp only [hn] at h
+        exact ih _ _ h
+
+theorem skipAtmosphere_inv (b : Bool) (cs : List Char) (p : Pos) :
+    ∃ a, cs = a ++ (skipAtmosphere b cs p).1 ∧ (skipAtmosphere b cs p).2 = advs a p ∧
+      startsTok (skipAtmosphere b cs p).1 = true ∧ isTrail b a = true ∧
+      ((skipAtmosphere b cs p).1 ≠ [] → isAtmos b a = true) := by
+  fun_induction skipAtmosphere b cs p with
+  | case1 b p => exact ⟨[], by simp, by simp, rfl, by simp [isTrail], by simp⟩
+  | case2 c cs p hw ih =>
+    obtain ⟨a, h1, h2, h3, h4, h5⟩ := ih
+    refine ⟨c :: a, by simp; exact h1, by simpa using h2, h3, by simp [isTrail, hw, h4], ?_⟩
+    intro h; simp [isAtmos, hw, h5 h]
+  | case3 cs p hw ih =>
+    obtain ⟨a, h1, h2, h3, h4, h5⟩ := ih
+    refine ⟨';' :: a, by simp; exact h1, by simpa using h2, h3, by simp [isTrail, hw, h4], ?_⟩
+    intro h; simp [isAtmos, hw, h5 h]
+  | case4 c cs p hw hc =>
+    refine ⟨[], by simp, by simp, ?_, by simp [isTrail], by simp [isAtmos]⟩
+    simp [startsTok, hw, hc]
+  | case5 c cs p hn ih =>
+    obtain ⟨a, h1, h2, h3, h4, h5⟩ := ih
+    have hw : isWs c = true := by
+      simp only [Bool.or_eq_true, decide_eq_true_eq] at hn
+      rcases hn with rfl | rfl <;> decide
+    cases a with
+    | nil =>
+      simp only [List.nil_append] at h1
+      rw [← h1] at h3
+      simp [startsTok, hw] at h3
+    | cons c' a =>
+      simp only [List.cons_append, List.cons.injEq] at h1
+      obtain ⟨rfl, h1⟩ := h1
+      refine ⟨c :: a, by simp; exact h1, h2, h3, ?_, ?_⟩
+      · simpa [isTrail, hw, hn] using h4
+      · intro h; simpa [isAtmos, hw, hn] using h5 h
+  | case6 c cs p hn ih =>
+    obtain ⟨a, h1, h2, h3, h4, h5⟩ := ih
+    refine ⟨c :: a, by simp; exact h1, by simpa using h2, h3, by simp [isTrail, hn, h4], ?_⟩
+    intro h; simp [isAtmos, hn, h5 h]
+
 end Ruschm.Text
